@@ -59,13 +59,13 @@ def gen_cases(ctx):
     for par in gen.HARD_SHAPES[:5]:
         cases.append({"kind": "equality", "par": par, "seed": rng.randrange(10 ** 9),
                       "algo": rng.choice(["bug", "fixedbug"]), "deep": rng.random() < 0.5})
-    for _ in range(ctx.n(30, 250)):
+    for _ in range(ctx.n(80, 400)):
         kind = rng.choice([None, None, "spider", "chain", "star"])
         n = rng.choice([3, 4, 5, 6]) if kind else rng.choice([2, 3, 4, 5])
         cases.append({"kind": "equality", "par": gen.random_parent_array(rng, n, kind),
                       "seed": rng.randrange(10 ** 9), "algo": rng.choice(["bug", "fixedbug"]),
                       "deep": rng.random() < 0.5})
-    for _ in range(ctx.n(45, 250)):
+    for _ in range(ctx.n(120, 400)):
         kind = rng.choice([None, "spider", "chain"])
         n = rng.choice([3, 4, 5, 6]) if kind else rng.choice([2, 3, 4, 5])
         algo = rng.choice(["bug", "fixedbug"])
@@ -80,10 +80,10 @@ def gen_cases(ctx):
                       "steps": 2, "svd": svd, "fullrank": rng.random() < 0.5})
     # a saturated, flat-spectrum bond next to the root stays the largest bond while deeper bonds are augmented
     # and cut back by a value-based truncation (the truncated state must still be canonical at the root)
-    for _ in range(ctx.n(12, 60)):
+    for _ in range(ctx.n(24, 80)):
         cases.append({"kind": "flatleaf", "seed": rng.randrange(10 ** 9), "deep": rng.random() < 0.5,
                       "rel_tol": rng.choice([0.3, 0.1]), "dt": rng.choice([0.05, 0.02]), "steps": 3})
-    for _ in range(ctx.n(10, 60)):
+    for _ in range(ctx.n(20, 80)):
         cases.append({"kind": "saturated", "seed": rng.randrange(10 ** 9), "algo": rng.choice(["bug", "fixedbug"]),
                       "deep": rng.random() < 0.5, "d": rng.choice([2, 3])})
     return cases
